@@ -33,6 +33,7 @@ type ChainDB interface {
 	CandidatesRanking(hash common.Hash, voteLogs types.ChangeLogSlice)
 	GetCandidatesTop(hash common.Hash) []*store.Candidate
 	GetAllCandidates() ([]common.Address, error)
+	GetAllCandidatesByBlock(blockHash common.Hash) ([]common.Address, error)
 
 	GetAssetID(id common.Hash) (common.Address, error)
 	GetAssetCode(code common.Hash) (common.Address, error)
